@@ -47,7 +47,7 @@ CLAIMED = {
    "std::vector / std::string are the reference models; standard preconditions (iterators inside the container, no self-range assign)."),
  "C13": E1c("5/C13", "each suspension resumed exactly once on its executor (frame canaries, running/done flags), awaited values, empty optional iff cancel() returned true, wake_one/wake_all counts and conservation, non-matching wait does not suspend, exact DepositBox occupancy before/after",
    "Harness executors derived from babylon::Executor so that global quiescence can be awaited; plain accesses inside babylon are only interleaved at atomic operations and post-write points."),
- "C14": BOTH("5/C14", "no id with two holders, reuse before mint at quiescence, for_each == live set, thread ids unique among live threads and recycled, one taker per deposit, stale ids never match after any number of reuses",
+ "C14": BOTH("5/C14", "no id with two holders, reuse before mint at quiescence, for_each == live set, thread ids unique among live threads and recycled, one taker per deposit (the winning accessor kept, move-constructed, move-assigned or moved into a closure: the slot returns once), stale ids never match after any number of reuses",
    "Thread-id oracles are relative to the live set at case start (the allocator is process-wide and persists across cases)."),
  "C15": E1c("5/C15", "every consumer receives every item exactly once in publication order with complete payload, end marker after close(), batch items contiguous, clear() gives a fresh topic, no lost wake-up",
    "close() only after all publishers were joined (documented precondition); each Consumer object is used by one thread."),
@@ -57,9 +57,9 @@ CLAIMED = {
    "set_batch_size is always called; pages come from a per-case arena that never reuses addresses."),
  "C18": E2c("5/C18", "std::unordered_set/map driven by the same operation sequence: size, empty, membership, iteration as a multiset, first-inserted mapped values",
    "Sequential histories only (concurrency is C03); generated hash with four spreading modes; the default-constructed fixed table is the documented zero-capacity placeholder."),
- "C19": E1c("5/C19", "quiescent adder/summer/maxer/miner values exact across thread and instance generations, overlapping reads bounded by completed/started contributions, local() private and stable, for_each covers every slot ever used, for_each_alive == live threads, new counters read zero",
+ "C19": E1c("5/C19", "quiescent adder/summer/maxer/miner values exact across thread and instance generations and across long period histories (2^32 periods, period number 2^32-1), overlapping reads bounded by completed/started contributions, local() private and stable, for_each covers every slot ever used, for_each_alive == live threads, new counters read zero",
    "Reads overlapping counting threads interleave only at atomic operations and explicit schedule points (plain accesses are not instrumented): a torn 128-bit summer store cannot be observed."),
- "C20": BOTH("5/C20", "concatenated iovecs == bytes streamed, every backing page exactly once in the scatter list, nothing outstanding after write/discard (incl. an exhaustively enumerated length range for page sizes 32 and 64); appender: every framed entry exactly once, intact, per-thread order, pages returned",
+ "C20": BOTH("5/C20", "concatenated iovecs == bytes streamed, every backing page exactly once in the scatter list, nothing outstanding after write/discard (incl. an exhaustively enumerated length range for page sizes 32 and 64); appender: every framed entry exactly once, intact, per-thread order, pages returned, also for entries streamed through the AsyncLogStream front end (header formatter, begin args, nested begin/end, noflush resume, ostream-layer pieces, a printer that sets failbit)",
    "Entries have >= 1 byte (zero-length is the appender's stop marker); close() after the writers were joined; writev to a memfd is never short."),
 }
 REASON_WIP = "check not built yet in this round (work in progress; see DESIGN.md section 5)"
